@@ -1,9 +1,10 @@
 SPECIFICATION Spec
 CONSTANTS
   Deviations <- RealDevs
-  RuleSets <- S_dbl
-  MaxDepth = 1
+  RuleSets <- T_negneg
+  MaxDepth = 2
   Wide = FALSE
+INVARIANT PropertyHolds
 INVARIANT DeviationsExplain
 INVARIANT Emit
 CHECK_DEADLOCK FALSE
